@@ -7,11 +7,12 @@ Model: PybropsModel/Model/Store.lean — an HDF5 file as a finite map path ↦ d
 the pre-repair writer and reader are kept as `…Prerepair` for the counterexamples),
 the typed readers, one schema + constructor per persistable class.
 -/
-import PybropsModel.Lemmas.StoreHist
+import PybropsModel.Lemmas.StoreHist2
 import PybropsModel.Lemmas.StoreExamples
 import PybropsModel.Lemmas.StoreCopyLemmas
 import PybropsModel.Lemmas.StoreVcfLemmas
-import PybropsModel.Lemmas.StoreFrameLemmas
+import PybropsModel.Lemmas.StoreFrameLemmas2
+import PybropsModel.Lemmas.StoreGraphLemmas
 set_option autoImplicit false
 
 namespace C16
@@ -20,35 +21,52 @@ open Store
 /-! ## HDF5: write histories -/
 
 /-- **Last write wins.**  For every history of overwriting `to_hdf5` calls — any number of writes,
-    any objects of any classes, any groups none of which is a path-prefix of another, each field
-    name used consistently — no call fails, and `from_hdf5` at the location `w.g` returns exactly
-    the object `w.obj` written there last (`H2` contains no later write to that location), whatever
-    was written there before (richer or poorer objects, other classes) and whatever is written
-    elsewhere. -/
-theorem hdf5_last_write_wins (sch : Schema) (ty : String → Bool)
-    (H1 H2 : List Write) (w : Write)
-    (hsep : Separated (H1 ++ w :: H2)) (hty : ∀ w' ∈ H1 ++ w :: H2, Typed ty w'.obj)
-    (hkeys : (sch.fields.map (·.key)).Nodup) (hlast : ∀ w' ∈ H2, w'.g ≠ w.g)
+    any objects of any classes, any groups (nested ones and the root included) — such that the
+    datasets written form a prefix-free set of paths (nothing is written *inside* a dataset) and no
+    later call claims a field name that is path-comparable with a field name of `w`: no call fails,
+    and `from_hdf5` at the location `w.g` returns exactly the object `w.obj`, whatever was written
+    there before (richer or poorer objects, other classes) and whatever is written elsewhere. -/
+theorem hdf5_last_write_wins (sch : Schema) (H1 H2 : List Write) (w : Write)
+    (hpf : PrefixFree (Touched (H1 ++ w :: H2))) (hnb : ∀ w' ∈ H1 ++ w :: H2, NoBad w'.obj)
+    (hkeys : (sch.fields.map (·.key)).Nodup) (hun : Unreached w H2)
     (hv : valid sch w.obj = true) :
     ∃ f, runHist [] (H1 ++ w :: H2) = (f, none) ∧ fromHdf5At sch f w.g = .ok w.obj := by
   have hv' : validG true sch w.obj = true := hv
   have hc : conformsG true sch w.obj = true := by
     unfold validG at hv'; rw [Bool.and_eq_true] at hv'; exact hv'.1
-  obtain ⟨f, h1, h2, h3⟩ := region_after_fixed ty H1 H2 w hsep hty
-    (keysNodup_of_conforms true sch w.obj hc hkeys) hlast
+  obtain ⟨f, h1, h2, h3⟩ := region_after_write H1 H2 w hpf hnb
+    (keysNodup_of_conforms true sch w.obj hc hkeys) hun
   exact ⟨f, h1, fromHdf5At_of_region true sch h2 h3 hv'⟩
 
-/-- **Round trip** (the one-write instance, stated separately because it is the everyday use): an
-    object written to a location, while any number of other objects are written to other groups of
-    the same file before and after, is read back exactly. -/
+/-- **Separate groups** (the everyday instance): when no group of the history is a path-prefix of
+    another and every field name is used consistently as a leaf or as a dictionary, the hypotheses
+    above hold — the object written last to a location is read back exactly, while any number of
+    other objects are written to other groups of the same file before and after. -/
 theorem hdf5_roundtrip (sch : Schema) (ty : String → Bool)
     (H1 H2 : List Write) (w : Write)
     (hsep : Separated (H1 ++ w :: H2)) (hty : ∀ w' ∈ H1 ++ w :: H2, Typed ty w'.obj)
-    (hkeys : (sch.fields.map (·.key)).Nodup)
-    (hfresh : ∀ w' ∈ H1, w'.g ≠ w.g) (hlast : ∀ w' ∈ H2, w'.g ≠ w.g)
+    (hkeys : (sch.fields.map (·.key)).Nodup) (hlast : ∀ w' ∈ H2, w'.g ≠ w.g)
     (hv : valid sch w.obj = true) :
     ∃ f, runHist [] (H1 ++ w :: H2) = (f, none) ∧ fromHdf5At sch f w.g = .ok w.obj :=
-  hdf5_last_write_wins sch ty H1 H2 w hsep hty hkeys hlast hv
+  hdf5_last_write_wins sch H1 H2 w (touched_prefixFree ty _ hsep hty)
+    (fun w' h => typed_noBad (hty w' h)) hkeys (unreached_of_separated hsep hlast) hv
+
+/-- non-vacuity of the general hypotheses beyond separated groups: the root and a nested group in
+    one file (`"a"` is not a field name), the root written last -/
+example :
+    let H : List Write := [⟨[], Ex.pgRich⟩, ⟨["a"], Ex.algStr⟩, ⟨[], Ex.pgPoor⟩]
+    (fromHdf5At pgmatSchema (runHist [] H).1 [] = .ok Ex.pgPoor) ∧
+    (fromHdf5At algSchema (runHist [] H).1 ["a"] = .ok Ex.algStr) := by
+  decide +kernel
+
+/-- **The pre-repair writer, exactly** (what D8 was): for every history whose written datasets are
+    prefix-free no call failed, and every dataset of the file held the value of the *last
+    non-`None` write to its path* — a `None` field wrote nothing and deleted nothing, so a field
+    absent from the last object kept the value of the last earlier object that had it. -/
+theorem hdf5_fieldwise_last_nonNone_prerepair (H : List Write) (hpf : PrefixFree (Touched H))
+    (hnb : ∀ w ∈ H, NoBad w.obj) :
+    ∃ f, runHistPrerepair [] H = (f, none) ∧ ∀ q, lookup f q = lastWrite (flatH H) q :=
+  prerepair_lookup H hpf hnb
 
 /-- **D8, repaired by 93761174.**  The writer *before* the repair violated the statement: a grouped,
     labelled phased genotype matrix and then a bare one of the same shape are written to `a/b`;
@@ -195,6 +213,110 @@ theorem gmap_units_must_match :
     gmapFromPandas (gmapToPandas (⟨[1], [10], [1]⟩ : GMap Rat) .cM) .M = .ok ⟨[1], [10], [100]⟩ := by
   decide +kernel
 
+open StoreFrame in
+/-- **Coancestry matrix, wide layout.**  With taxa names present, pairwise distinct and different
+    from the label column names, any square matrix is read back exactly — names, groups (an absent
+    group array is a column of `None`, read as absent) and every cell. -/
+theorem cmat_frame_roundtrip {α : Type} [Inhabited α] (c : CMat α) (names : List String)
+    (ht : c.taxa = some names) (hn : c.mat.length = names.length)
+    (hsq : ∀ r ∈ c.mat, r.length = names.length) (taxaCol : String) (taxaGrpCol : Option String)
+    (hnd : (cmNames names taxaCol taxaGrpCol).Nodup) (hg : taxaGrpCol = none → c.taxa_grp = none) :
+    cmFromPandas (cmToPandas c taxaCol taxaGrpCol) taxaCol taxaGrpCol = .ok c :=
+  cmFromPandas_toPandas c names ht hn hsq taxaCol taxaGrpCol hnd hg
+
+open StoreFrame in
+/-- non-vacuity: an asymmetric 2 × 2 matrix with non-ASCII taxa, no groups -/
+example :
+    let c : CMat Rat := ⟨[[1, 2], [3, 5]], some ["tå", "βb"], none⟩
+    (cmNames ["tå", "βb"] "taxa" (some "taxa_grp")).Nodup ∧
+    cmFromPandas (cmToPandas c "taxa" (some "taxa_grp")) "taxa" (some "taxa_grp") = .ok c := by
+  decide +kernel
+
+open StoreFrame in
+/-- **Extended genetic map.**  Over any field with 100 ≠ 0: all six columns (the optional name and
+    mapping-function columns being read exactly when present) come back, positions converted with
+    the same unit on both sides. -/
+theorem emap_frame_roundtrip {α : Type} [Field α] (h100 : (100 : α) ≠ 0) (m : EMap α) (u : Units) :
+    emapFromPandas (emapToPandas m u) u m.name.isSome m.fncode.isSome = .ok m :=
+  emap_roundtrip h100 m u
+
+open StoreFrame in
+/-- **Genomic-model dictionaries** (`to_pandas_dict` / `from_pandas_dict`, any number of coefficient
+    blocks — `beta`, `u_misc`, `u_a`, `u_d` — of any sizes): with trait names present and distinct
+    every block and the trait names are read back exactly. -/
+theorem model_dict_roundtrip {α : Type} [Inhabited α] (m : LinMod α) (l : List String)
+    (ht : m.trait = some l) (hnd : l.Nodup) (hne : m.blocks ≠ [])
+    (hc : ∀ kb ∈ m.blocks, ∀ r ∈ kb.2, r.length = l.length) :
+    lmFromPandasDict (lmToPandasDict m l.length) (m.blocks.map (fun kb => kb.2.length)) =
+      .ok (m.blocks, l.map Name.s) :=
+  lmFromPandasDict_toPandasDict m l ht hnd hne hc
+
+open StoreFrame in
+/-- non-vacuity: one fixed effect, an empty miscellaneous block, two marker effects, two traits -/
+example :
+    let m : LinMod Rat := ⟨[("beta", [[1, 2]]), ("u_misc", []), ("u_a", [[0, 3], [2, -1]])], some ["yld", "hté"]⟩
+    lmFromPandasDict (lmToPandasDict m 2) [1, 0, 2] = .ok (m.blocks, [.s "yld", .s "hté"]) := by
+  decide +kernel
+
+open StoreFrame in
+/-- **Variance matrix, long layout.**  `from_pandas` rebuilds the labels with `numpy.unique`, so the
+    layout is canonical in label order: for strictly increasing taxa and trait names, any n × n × t
+    matrix (n, t ≥ 1) is read back exactly — every cell addressed by its row (none left NaN), names,
+    groups, traits. -/
+theorem vmat_frame_roundtrip {α : Type} [Inhabited α] (v : VMat α)
+    (hs : v.taxa.Pairwise (· < ·)) (ht : v.trait.Pairwise (· < ·))
+    (hn : 0 < v.taxa.length) (htr : 0 < v.trait.length)
+    (hg : ∀ g, v.taxa_grp = some g → g.length = v.taxa.length)
+    (hm1 : v.mat.length = v.taxa.length) (hm2 : ∀ pl ∈ v.mat, pl.length = v.taxa.length)
+    (hm3 : ∀ pl ∈ v.mat, ∀ r ∈ pl, r.length = v.trait.length) :
+    vmFromPandas (vmToPandas v v.taxa_grp.isSome) v.taxa_grp.isSome =
+      .ok ⟨v.mat.map (fun pl => pl.map (fun r => r.map some)), v.taxa, v.taxa_grp, v.trait⟩ :=
+  vmFromPandas_toPandas v hs ht hn htr hg hm1 hm2 hm3
+
+open StoreFrame in
+/-- with labels that are *not* in increasing order the read-back is the same labelled data in sorted
+    label order (here: taxa and the two planes swapped) — why "sorted labels" is part of the
+    matching conditions of this layout -/
+theorem vmat_unsorted_labels_are_sorted :
+    let v : VMat Rat := ⟨[[[1], [2]], [[3], [4]]], ["b", "a"], none, ["t"]⟩
+    vmFromPandas (vmToPandas v false) false =
+      .ok ⟨[[[some 4], [some 3]], [[some 2], [some 1]]], ["a", "b"], none, ["t"]⟩ := by
+  decide +kernel
+
+open StoreFrame in
+/-- **CSV text.**  Cell printing and parsing is an abstract dialect; for every dialect that keeps the
+    contract `Lawful` (a printed float / int / label-safe string column is typed and parsed back to
+    itself, a `None` column is written as empty cells and read as all-NA) a frame with ≥ 1 row is
+    read back column by column, the column labels becoming strings. -/
+theorem csv_text_roundtrip {σ α : Type} (D : Dialect σ α) (safe : String → Prop) (hD : Lawful D safe)
+    (f : Frame α) (n : Nat) (hn : 0 < n) (hlen : ∀ e ∈ f, colLen e.2 = n) (hs : ∀ e ∈ f, ColSafe safe e.2) :
+    csvRead D (csvWrite D f n) = f.map (fun e => (Name.s (nameText e.1), e.2)) :=
+  csvRead_csvWrite D safe hD f n hn hlen hs
+
+open StoreFrame in
+/-- … hence every layout whose column labels are strings goes through `to_csv` / `from_csv`
+    unchanged; e.g. the genetic map with matching units: -/
+theorem gmap_csv_roundtrip {σ α : Type} [Field α] (h100 : (100 : α) ≠ 0) (D : Dialect σ α)
+    (safe : String → Prop) (hD : Lawful D safe) (m : GMap α) (u : Units)
+    (hn : 0 < m.chrgrp.length) (h1 : m.phypos.length = m.chrgrp.length) (h2 : m.genpos.length = m.chrgrp.length) :
+    gmapFromPandas (csvRead D (csvWrite D (gmapToPandas m u) m.chrgrp.length)) u = .ok m := by
+  have hf : gmapToPandas m u = [(.s "chr", .ints m.chrgrp), (.s "pos", .ints m.phypos),
+      (.s "cM", .vals (match u with | .M => m.genpos | .cM => m.genpos.map (fun x => (100 : α) * x)))] := by
+    unfold gmapToPandas; exact mkFrame_of_nodup _ (by simp)
+  rw [csvRead_csvWrite_named D safe hD _ _ hn
+    (by rw [hf]; intro e he; simp at he; rcases he with e1 | e1 | e1 <;> subst e1 <;> cases u <;> simp [colLen, h1, h2])
+    (by rw [hf]; intro e he; simp at he; rcases he with e1 | e1 | e1 <;> subst e1 <;> simp [ColSafe])
+    (by rw [hf]; intro e he; simp at he; rcases he with e1 | e1 | e1 <;> subst e1 <;> simp)]
+  exact gmap_frame_roundtrip h100 m u
+
+open StoreFrame in
+/-- non-vacuity: the contract is consistent (a dialect with tagged cells keeps it) and a two-row
+    frame with an integer-labelled column goes through it, the label coming back as the string "0" -/
+example : Lawful (tagDialect Rat) (fun _ => True) ∧
+    csvRead (tagDialect Rat) (csvWrite (tagDialect Rat) [(.s "taxa", .strs ["a", "b"]), (.i 0, .vals [1, 2])] 2) =
+      [(.s "taxa", .strs ["a", "b"]), (.s "0", .vals [1, 2])] :=
+  ⟨tagDialect_lawful Rat, by decide +kernel⟩
+
 /-! ## VCF import -/
 
 open StoreVcf in
@@ -260,6 +382,25 @@ example :
       [[[1, 0, 2, 0], [0, 1, 0, 1], [0, 1, 0, 1]], [[1, 0, 1, 1], [1, 0, 0, 1], [0, 1, 2, 0]]] := by
   decide +kernel
 
+open StoreVcf in
+/-- **VCF text level.**  Decision taken from the property text: records whose identifier is missing
+    (`.`) are inside the quantifier ("all VCF contents with phased diploid calls") — there is no
+    identifier to reproduce, the code stores the string "None", every *present* identifier is
+    reproduced exactly; chromosome names that are not integer literals are outside it, because the
+    matrix stores chromosomes as an integer array: such a file is refused (`int(variant.CHROM)`
+    raises) before anything is built.  Whenever every CHROM parses, the import is `fromVcf` on the
+    parsed records, so `vcf_import_exact` applies to it. -/
+theorem vcf_text_import (samples : List String) (raws : List RawRec) (autoGroup : Bool) :
+    ((∀ r ∈ raws, r.chrom.toInt?.isSome = true) →
+      fromVcfRaw samples raws autoGroup = .ok (fromVcf samples
+        (raws.map (fun r => ⟨(r.chrom.toInt?).getD 0, r.pos, r.id.getD "None", r.calls⟩)) autoGroup)) ∧
+    ((∃ r ∈ raws, r.chrom.toInt? = none) → fromVcfRaw samples raws autoGroup = .error .value) := by
+  constructor
+  · intro h
+    simp [fromVcfRaw, parseRecs_ok raws h]
+  · intro h
+    simp [fromVcfRaw, parseRecs_err raws h]
+
 /-! ## copies -/
 
 open StoreCopy in
@@ -316,6 +457,45 @@ example :
     view (copyObj true ho.1 ho.2).1 (copyObj true ho.1 ho.2).2 = o ∧
     (refs (copyObj true ho.1 ho.2).2).all (fun a => !(refs ho.2).contains a) = true ∧
     (refs (copyObj false ho.1 ho.2).2).any (fun a => (refs ho.2).contains a) = true := by
+  decide +kernel
+
+/-! ## copies of object graphs: `copy.deepcopy` inside the model -/
+
+open StoreGraph in
+/-- **`copy.deepcopy(x)`** as Python runs it with the classes' `__deepcopy__` methods (memo,
+    dictionaries, nested instances such as the genomic model bound to a phenotyping protocol,
+    attributes copied without memo, the random source shared on purpose), on any acyclic heap:
+    the source heap is only extended; the copy views exactly as the source; every cell the copy can
+    reach through its state is fresh or an external resource (the random source) — so they share no
+    mutable state —; and overwriting any cell outside the source heap (an array of the copy, one of
+    its dictionaries, the copy itself) never shows in the source. -/
+theorem deepcopy_graph (h : Heap) (root : Ref) (hwf : WF h) (hr : RefIn h root) :
+    DeepCopied h root (deepcopyRoot h root) :=
+  deepcopyRoot_spec h root hwf hr
+
+open StoreGraph in
+/-- **`x.deepcopy()`** — for the classes that implement it as `self.__deepcopy__(None)` every
+    attribute is copied with a memo of its own (aliasing between attributes is not carried over), for
+    the others it is `copy.deepcopy(self)`: the same guarantees -/
+theorem deepcopy_method_graph (h : Heap) (a : Nat) (cls : String) (attrs : List (String × Ref))
+    (hwf : WF h) (ha : a < h.length) (hc : h[a] = .obj cls attrs) :
+    DeepCopied h (.ptr a) (deepcopyMethod h (.ptr a)) :=
+  deepcopyMethod_spec h a cls attrs hwf ha hc
+
+open StoreGraph in
+/-- non-vacuity and the memo at work: a breeding-value matrix whose `location` and `scale` are one
+    buffer (cell 1) and whose `taxa_grp_name` / `taxa_grp_len` are one buffer (cell 2).  The heap is
+    acyclic (`wfB`, which implies the hypothesis `WF` by `wf_of_wfB`); the deep copy keeps the second aliasing (memo) and splits the first (`location` and
+    `scale` are copied without memo) -/
+example :
+    let h : Heap := [.arr ⟨.f64, [1, 1], [], [3], []⟩, .arr ⟨.f64, [1], [], [2], []⟩, .arr ⟨.i64, [1], [1], [], []⟩,
+      .obj "bvmat" [("mat", .ptr 0), ("location", .ptr 1), ("scale", .ptr 1), ("taxa", .none),
+                    ("taxa_grp_name", .ptr 2), ("taxa_grp_len", .ptr 2)]]
+    wfB h = true ∧
+    (deepcopyRoot h (.ptr 3)).2 = .ptr 8 ∧
+    (deepcopyRoot h (.ptr 3)).1.getD 8 default =
+      .obj "bvmat" [("mat", .ptr 4), ("location", .ptr 5), ("scale", .ptr 6), ("taxa", .none),
+                    ("taxa_grp_name", .ptr 7), ("taxa_grp_len", .ptr 7)] := by
   decide +kernel
 
 end C16
